@@ -65,6 +65,9 @@ func c16Gen(rng *rand.Rand, tier string, w *bufio.Writer) {
 	// (2) the listener decides from a stale last-interaction time while a request has just been handed the instance
 	fmt.Fprintf(w, "case %d life i\nset a x\ntick arm\nspawn A set b y\ntick go\ngo A\ngo A\nreopen\n", c)
 	c++
+	// the listener finds the swamp idle long enough while a request holds a vigil: it must not close
+	fmt.Fprintf(w, "case %d life i\nset a x\nspawn A set b y\ngo A\ntick arm\ntick go\ngo A\nclose\nreopen\n", c)
+	c++
 	// the same two shapes without the race: nothing may be lost
 	fmt.Fprintf(w, "case %d life d\nset a x\nspawn A set b y\ngo A\ngo A\nspawn B del a\nreopen\nclose\nreopen\n", c)
 	c++
